@@ -42,7 +42,7 @@ TECHNIQUE = "property-based testing (Hypothesis) with a static bytecode verifier
 
 
 def cases(tier):
-    return 4000 if tier == "quick" else 320000
+    return 4000 if tier == "quick" else 100000
 
 
 def strategy(hazards):
